@@ -190,7 +190,12 @@ def stream_lcf(ctx, built=True, oracle=None, parts=("lcf", "extreme", "ecnt", "l
                 row = [R.choice([0] + [R.getrandbits(64) or 1]) if R.random() < 0.1 else (R.getrandbits(64) or 1) for _d in range(dims)]
                 if kind[0] == "u" and row[0] in used: continue
                 used.add(row[0]); seen_rows.append(row); live.add(np.array(row, dtype=U64))
-            p = p0 if R.random() < 0.6 else _replace(p0, low_threshold=max(1, p0.low_threshold + R.choice([-2, -1, 1])))
+            r_ = R.random()
+            if r_ < 0.45: p = p0
+            elif r_ < 0.7: p = _replace(p0, low_threshold=max(1, p0.low_threshold + R.choice([-2, -1, 1])))
+            else:          # the same threshold asked about under another noise level / gap / salt: the answer is a function of all of them
+                p = _replace(p0, layer_sd=R.choice([0.0, 0.5, 1.0, 2.5]), low_mean_gap=R.choice([0.0, 1.0, 3.5]))
+                if R.random() < 0.5: salt = rand_salt(R)
             low = live.is_low_count(salt, p)
             lines.append(f"ecnt {salt_hex(salt)} {supp_tok(p)} {kind_tok(kind)} {len(seen_rows)} " + " ".join(" ".join(map(str, r)) for r in seen_rows))
             exp.append(("1" if low else "0") + " *")
